@@ -30,8 +30,8 @@ func init() {
 		Rule: "exhaustive: every schema made of one or two keyword atoms (boundary-valued atoms over all supported keywords, incl. non-ASCII patterns / enums / property names) and every composition " +
 			"(allOf/anyOf/oneOf/not/items/properties/additionalProperties) over leaf sub-schemas, alone and combined with top-level atoms, crossed with a value alphabet " +
 			"(all six JSON types, nested, boundary values of every bound ±1, strings of 1-, 2-, 3- and 4-byte runes and combining marks); the complete string-length family (minLength × maxLength over {absent,0..5,10} × 24 strings mixing rune widths); " +
-			"the discriminator family; plus a seeded random stream of schemas of depth ≤ 3 with up to 4 keywords per level. Each case is observed through VisitJSON, VisitJSON(FailFast()), IsMatching and the typed IsMatchingJSON* helper; " +
-			"a schema with readOnly/writeOnly also under the request/response readings, a schema with a pattern also with DisablePatternValidation and after a history step under another regex compiler (negating / case-insensitive / literal). " +
+			"the discriminator family; the complete defaults-below-`not` family under VisitAsRequest/VisitAsResponse + DefaultsSet (7 paths from the value to the object a default lands in × matching/failing `not` children × 7 own keyword sets × 16 values of all JSON types); plus a seeded random stream of schemas of depth ≤ 3 with up to 4 keywords per level. Each case is observed through VisitJSON, VisitJSON(FailFast()), IsMatching and the typed IsMatchingJSON* helper; " +
+			"a schema with readOnly/writeOnly also under the request/response readings, a schema with a `default` and a `not` also with DefaultsSet under the readings, a schema with a pattern also with DisablePatternValidation and after a history step under another regex compiler (negating / case-insensitive / literal). " +
 			"A case is non-trivial when the schema has at least one keyword (the driver reports the keyword set, nesting, value type and verdict).",
 		Exhaustive: true,
 		Gen:        genC01,
@@ -819,6 +819,14 @@ func emitCtx(emit func(hx.Case), c hx.Case, withDfl bool, thorough bool) {
 			variants = append(variants, map[string]any{"ctx": "asreq"})
 		}
 	}
+	if !withDfl && strings.Contains(js, "\"default\"") && strings.Contains(js, "\"not\"") {
+		// C01: DefaultsSet under a reading lets the validator WRITE while it validates; what a `not` child writes must never
+		// reach the verdict (the pair VisitAsRequest + DefaultsSet is what openapi3filter uses for request bodies)
+		variants = append(variants, map[string]any{"ctx": "asreq", "dfl": true})
+		if thorough || caseHash(c)%2 == 0 {
+			variants = append(variants, map[string]any{"ctx": "asrep", "dfl": true})
+		}
+	}
 	for _, v := range variants {
 		x := cloneCase(c)
 		for k, val := range v {
@@ -828,7 +836,83 @@ func emitCtx(emit func(hx.Case), c hx.Case, withDfl bool, thorough bool) {
 	}
 }
 
-func genC01(ctx *hx.Ctx, emit func(hx.Case)) { genSchemaCases(ctx, emit, false, 1) }
+func genC01(ctx *hx.Ctx, emit func(hx.Case)) {
+	for _, c := range c01NotDfltCases() {
+		emit(withOracle(c))
+	}
+	genSchemaCases(ctx, emit, false, 1)
+}
+
+// ---------------------------------------------------------------- defaults below `not` under injection (complete family)
+//
+// Under VisitAsRequest()/VisitAsResponse() + DefaultsSet the validator writes property defaults into the value while it
+// validates. A `not` child is tried on a private copy: whatever it writes — into an object, into the objects inside an array,
+// inside an array of arrays, into a member — must not be seen by the schema's own keywords. The family crosses `not` children
+// that reach a default through items / items.items / properties / additionalProperties / allOf (matching and failing, the
+// failure placed after the point where the default is written) with own keywords that would notice the written member
+// (required, maxProperties, additionalProperties:false, minProperties — at the level the default lands on), on values of
+// every JSON type that contains an object somewhere, under both readings with DefaultsSet, and plain.
+
+func c01NotDfltCases() []hx.Case {
+	d0 := map[string]any{"properties": map[string]any{"a": map[string]any{"default": "d"}}}
+	d0z := map[string]any{"properties": map[string]any{"a": map[string]any{"default": "d"}}, "required": []any{"zz"}} // writes, then fails
+	// a child whose OWN verdict depends on the written default (outside the neutral class: the model is the reference there)
+	d0r := map[string]any{"properties": map[string]any{"a": map[string]any{"default": "d"}}, "required": []any{"a"}}
+	// a path from the visited value down to the object the default lands in
+	type path struct {
+		wrap func(leaf map[string]any) map[string]any
+	}
+	paths := []path{
+		{func(l map[string]any) map[string]any { return l }},
+		{func(l map[string]any) map[string]any { return map[string]any{"items": l} }},
+		{func(l map[string]any) map[string]any { return map[string]any{"items": map[string]any{"items": l}} }},
+		{func(l map[string]any) map[string]any { return map[string]any{"additionalProperties": l} }},
+		{func(l map[string]any) map[string]any { return map[string]any{"properties": map[string]any{"p": l}} }},
+		{func(l map[string]any) map[string]any {
+			return map[string]any{"properties": map[string]any{"p": map[string]any{"items": l}}}
+		}},
+		{func(l map[string]any) map[string]any {
+			return map[string]any{"items": map[string]any{"properties": map[string]any{"p": l}}}
+		}},
+	}
+	// own keywords of the level the default lands in: each notices a member "a" that was not there
+	owns := []map[string]any{
+		{"required": []any{"a"}}, {"maxProperties": 0}, {"maxProperties": 1}, {"additionalProperties": false}, {"minProperties": 1},
+		{"properties": map[string]any{"a": map[string]any{"type": "integer"}}}, {},
+	}
+	values := []any{
+		map[string]any{}, map[string]any{"a": 1}, map[string]any{"b": 2}, map[string]any{"p": map[string]any{}}, map[string]any{"p": []any{map[string]any{}}},
+		map[string]any{"x": map[string]any{}}, []any{}, []any{map[string]any{}}, []any{map[string]any{"a": 1}}, []any{map[string]any{"b": 2}, map[string]any{}},
+		[]any{[]any{map[string]any{}}}, []any{map[string]any{"p": map[string]any{}}}, []any{1, map[string]any{}}, "s", 1, nil,
+	}
+	var out []hx.Case
+	for pi, pa := range paths {
+		var nots []map[string]any
+		nots = append(nots, pa.wrap(d0), pa.wrap(d0z), pa.wrap(d0r),
+			map[string]any{"allOf": []any{pa.wrap(d0), map[string]any{"enum": []any{"never"}}}}) // writes in the first member, fails in the second
+		for _, n := range nots {
+			for _, own := range owns {
+				s := map[string]any{"not": n}
+				for k, v := range pa.wrap(own) {
+					s[k] = v
+				}
+				for vi, v := range values {
+					for _, ctx := range []map[string]any{{"ctx": "asreq", "dfl": true}, {"ctx": "asrep", "dfl": true}, {}} {
+						if len(ctx) == 0 && (pi+vi)%3 != 0 {
+							continue
+						}
+						c := hx.Case{"schema": s, "value": v}
+						for k, x := range ctx {
+							c[k] = x
+						}
+						out = append(out, c)
+					}
+				}
+			}
+		}
+	}
+	return out
+}
 
 // genSchemaCases is the generator shared by C01 and C12 (C12: withDfl, which adds the default-injection family and the
 // DefaultsSet variants of every schema with a `default`). `stride` thins the big schema × value product in the quick
